@@ -276,6 +276,8 @@ Proof.
   - simp. pcmove. constructor.
   - apply close_begin_astep; [reflexivity | left; auto].
   - simp. pcmove. constructor.
+  - simp. pcmove. constructor.
+  - simp. pcmove. constructor.
   - destruct (finish_iter_view s) as (p & Hp & Hv). rewrite Hv. pcmove. constructor; auto.
   - destruct (scan_next_view (detach (with_efd s 0))) as (p & Hp & Hv). rewrite Hv.
     simp. simp_in Hp. apply (AL_drain (view s)); auto.
